@@ -1,4 +1,5 @@
 mod bdd;
+mod cbt;
 mod ckks;
 mod core;
 mod dft;
@@ -153,6 +154,22 @@ fn main() {
             }
             out.flush().unwrap();
             println!("ks: {} events", cases.len());
+        }
+        // cbt <descs.ndjson> <events.ndjson>
+        "cbt" => {
+            let cases = read_ndjson(&args[2]);
+            let mut out = BufWriter::new(std::fs::File::create(&args[3]).unwrap());
+            let mut mods = cbt::CMods::new();
+            for (idx, c0) in cases.iter().enumerate() {
+                let mut c = c0.clone();
+                if c.get("id").is_none() {
+                    c["id"] = serde_json::json!(idx + 1);
+                }
+                let ev = cbt::run_cbt(&mut mods, &c);
+                writeln!(out, "{}", serde_json::to_string(&ev).unwrap()).unwrap();
+            }
+            out.flush().unwrap();
+            println!("cbt: {} events", cases.len());
         }
         // ggsw <descs.ndjson> <events.ndjson>
         "ggsw" => {
